@@ -212,6 +212,8 @@ class Genuine:
         spec = {"root": s["sgx_root"], "leaf": s["leaf"], "att": s["att"], "inter": [s["inter"]],
                 "auth": s["auth"], "custom": self._alt("custom-in-quote", custom),
                 "seed": s["tx"]}
+        if s.get("cert_windows"):
+            spec["windows"] = dict(s["cert_windows"])
         v = self.v2 = certs.V2Cert(spec)
         pem = b""
         for nm in v.chain:
